@@ -255,6 +255,12 @@ impl<'a> MessageView<'a> {
 
     /// Returns the value at `index`, if any.
     pub fn get_value(&self, index: usize) -> Option<&[u8]> {
+        // An empty message has no offsets either, so `index == offsets.len()`
+        // below must not be mistaken for "last value".
+        if index >= self.len() {
+            return None;
+        }
+
         let header = 8 * self.len();
 
         let offsets = self.offsets();
